@@ -155,7 +155,9 @@ func chainsTo(p *core.Prog, f *core.Fn, e ast.Expr, at token.Pos, seen map[*core
 	return out
 }
 
-func runC08(c *core.Ctx) {
+// exportTransformerPairing is clause (1) of C08; C09 includes it because a table store that skips the session-kind
+// rewrites advertises routes without prepend / next-hop-self / ORIGINATOR_ID / OTC.
+func exportTransformerPairing(c *core.Ctx) {
 	p := c.P
 	rtF := p.Field(outPkg, "AdjRIBOut", "rt")
 	if rtF == nil {
@@ -221,6 +223,11 @@ func runC08(c *core.Ctx) {
 			return true
 		})
 	}
+}
+
+func runC08(c *core.Ctx) {
+	p := c.P
+	exportTransformerPairing(c)
 
 	// (2) stores are gated by the verdicts ---------------------------------------------------------------
 	for _, k := range []string{outPkg + ".(*AdjRIBOut).AddPath"} {
